@@ -98,6 +98,8 @@ def signature(model: Model, f: FuncInfo, ref_src: Optional[str] = None, want_inl
 
 
 def _is_elem(x: ast.AST) -> bool:
+    while isinstance(x, ast.Subscript) and isinstance(x.slice, ast.Constant):
+        x = x.value
     return isinstance(x, ast.Call) and isinstance(x.func, ast.Name) and x.func.id.startswith("ELEM")
 
 
@@ -169,6 +171,13 @@ def _propagate_equalities(expr: ast.AST, cond) -> ast.AST:
 
     class T(ast.NodeTransformer):
         def visit_Call(self, n: ast.Call):
+            d = ast.dump(n)
+            for k, v in subs:
+                if d == k:
+                    return copy.deepcopy(v)
+            return self.generic_visit(n)
+
+        def visit_Subscript(self, n: ast.Subscript):
             d = ast.dump(n)
             for k, v in subs:
                 if d == k:
